@@ -1450,7 +1450,8 @@ def mt_cfg(rc=False, ao=False, fine=False, shapes="ShapesSmall", maxids=5, maxco
     lines = ["SPECIFICATION %s" % ("GenSpec" if gen else "MCSpec"), "CONSTANTS",
              "  NT = %d" % nt, "  NX = 1", "  NV = %d" % nv, "  MaxIds = %d" % maxids, "  MaxCommits = %d" % maxcommits,
              "  MaxLocks = %d" % maxlocks, "  MaxCrash = %d" % maxcrash, "  MaxDefers = %d" % maxdefers, "  RcRoots = %s" % b(rc), "  AO = %s" % b(ao),
-             "  Fine = %s" % b(fine), "  Fix = %s" % sset(fix), "  Mut = %s" % sset(mut), "  Shapes <- %s" % shapes,
+             "  Fine = %s" % b(fine), "  Fix = %s" % sset(fix), "  Mut = %s" % sset(mut), "  NoHist = %s" % b(not gen),
+             "  Shapes <- %s" % shapes,
              "  GenLen = %d" % genlen, "  Pipes = %s" % sset(pipes), "  RejW = %d" % rejw]
     if gen:
         lines += ["INVARIANTS TypeOK EmitTrace"]
@@ -1486,6 +1487,48 @@ def mt_scenario(rep, which, variant=""):
         rep.violation("forced schedule %s: %s" % (which, v), {"kind": "mtree-scenario", "which": which, "variant": variant})
     log("[scenario] %s variant=%r: reader lock %s, %d violations"
         % (which, variant, "waited for the log worker" if r.get("lock_blocked") else "was granted", len(r["violations"])))
+
+
+def mt_record_and_validate(rep, variant, steps, seed, crash=0, nt=5, maxids=300, label=""):
+    """implementation -> specification for tree columns: a random driver (reader threads, stepping pipeline, restarts,
+    crashes, rejected transactions) records client calls, hook-derived Process/Defer events and projections of what the
+    implementation returns; TLC checks the recorded history against TraceMultiTree.tla"""
+    out = os.path.join(vcore.scratch(), "mttrace_%s.ndjson" % label)
+    args = {"out": out, "steps": steps, "seed": seed, "variant": variant, "nt": nt, "maxids": maxids, "crash": crash}
+    p = vcore.pdbh("mtree-record", args)
+    summary = json.loads(p.stdout.strip().splitlines()[-1])
+    vs = variant.split(",")
+    for pr in summary.get("problems", []):
+        rep.violation("driver: %s [variant=%s seed=%d]" % (pr, variant, seed), {"kind": "mtree-record", "args": args})
+    b = lambda x: "TRUE" if x else "FALSE"
+    cfg = write_cfg("\n".join([
+        "SPECIFICATION TraceSpec", "CONSTANTS", "  NT = %d" % nt, "  NX = 2", "  NV = 3", "  MaxIds = %d" % maxids,
+        "  MaxCommits = 1000000", "  MaxLocks = 1000000", "  MaxCrash = 1000000", "  RcRoots = %s" % b("rc" in vs),
+        "  AO = %s" % b("ao" in vs), "  Fine = FALSE", '  Fix = {"F18"}', "  Mut = {}", "  NoHist = TRUE", "  Shapes <- NoShapes",
+        "VIEW TraceView", "INVARIANTS TypeOK NoCorrupt ReaderStable IdealVisible XVisible FinalState",
+        "POSTCONDITION TraceAccepted", "CHECK_DEADLOCK FALSE"]) + "\n")
+    res = vcore.tlc_trace("MCTraceMultiTree.tla", cfg, out)
+    rep.traces += 1
+    rep.evaluations += 1
+    rep.transitions += res.get("generated", 0)
+    rep.extra["trace_events_validated"] = rep.extra.get("trace_events_validated", 0) + max(res.get("matched", 0), 0)
+    tc = rep.extra.setdefault("tree_trace_counts", {})
+    for k in ("events", "commits", "defers", "crashes", "restarts", "trees_with_shared_nodes", "ids"):
+        tc[k] = tc.get(k, 0) + int(summary.get(k, 0))
+    if not res["accepted"]:
+        first = " ".join(l.strip() for l in res["out"].splitlines() if "TRACE-FIRST-UNMATCHED" in l or "is violated" in l)
+        os.makedirs(vcore.REPLAYS, exist_ok=True)
+        keep = os.path.join(vcore.REPLAYS, "%s_mttrace_%s.ndjson" % (rep.prop, label))
+        import shutil
+        shutil.copyfile(out, keep)
+        rep.violation("recorded tree history rejected by the specification after %s of %s events: %s [variant=%s]"
+                      % (res.get("matched"), res.get("total"), first[:300], variant),
+                      {"kind": "mtree-trace", "trace": keep, "args": args})
+    rep.nontrivial.add("mttrace:%s:%d" % (label, seed))
+    log("[trace] %s variant=%r: %s events (%s commits, %s defers, %s crashes), matched %s/%s"
+        % (label, variant, summary.get("events"), summary.get("commits"), summary.get("defers"), summary.get("crashes"),
+           res.get("matched"), res.get("total")))
+    return res, summary
 
 
 @check("C10")
@@ -1553,6 +1596,10 @@ def c10(tier):
         behs = mt_generate(rep, num, 34 if thorough else 30, SEED * 17 + j, rc="rc" in vs, ao="ao" in vs, fine=False,
                            shapes="ShapesWide", maxids=14, maxcommits=10, maxlocks=0, nt=3, nv=2)
         generic_replay(rep, "mtree-replay", behs, {"seed": SEED + j, "variant": var}, "c10_%d" % j, "mtree-replay")
+    # implementation -> specification
+    for j, var in enumerate(["", "rc", "direct", "ao", "big"] + (["rc,direct", "", "rc"] if thorough else [])):
+        mt_record_and_validate(rep, var, 3000 if thorough else 400, SEED * 41 + j, crash=2, nt=6 if thorough else 5,
+                               maxids=2500 if thorough else 300, label="c10t%d" % j)
     return rep.finish()
 
 
@@ -1607,4 +1654,12 @@ def c11(tier):
         behs = mt_generate(rep, max(4, num // 2), 30, SEED * 23 + j, rc="rc" in vs, fine=False, shapes="ShapesWide",
                            maxids=14, maxcommits=10, maxlocks=5, maxdefers=4, nt=3, nv=2)
         generic_replay(rep, "mtree-replay", behs, {"seed": SEED + 60 + j, "variant": var}, "c11c_%d" % j, "mtree-replay")
+    # implementation -> specification (random driver with reader threads; deferrals come from the hook events)
+    tot_defers = 0
+    for j, var in enumerate(["", "rc"] + (["direct", "", "rc", "big"] if thorough else [])):
+        _, summ = mt_record_and_validate(rep, var, 3000 if thorough else 500, SEED * 43 + j, crash=1, nt=6 if thorough else 5,
+                                         maxids=2500 if thorough else 300, label="c11t%d" % j)
+        tot_defers += summ.get("defers", 0)
+    if tot_defers == 0:
+        raise ToolError("no deferral in the recorded tree histories: vacuous")
     return rep.finish()
